@@ -133,10 +133,14 @@ CHECKS = {
              "context holds exactly the caller's headers (all names but _opid: user headers, correlation id, timeout), a fresh op id, and a "
              "response map carrying the request's op id and correlation id and nothing else, the caller's context untouched; a request without "
              "op id is rejected; after the reply travelled back every response header the handler set (any name but _opid) is on the caller's "
-             "context, earlier ones kept, a handler-set _opid cannot displace the caller's; timeouts travel as whole milliseconds. Tied to the "
-             "code by replaying seeded calls through the real FProtocol (WriteRequestHeader / ReadRequestHeader / WriteResponseHeader / "
-             "ReadResponseHeader over a memory transport) and comparing all maps of all contexts after every step inside Coq. Partial: "
-             "context/header level only - transports and generated code are exercised by C03, not by this check.",
+             "context, earlier ones kept, a handler-set _opid cannot displace the caller's; timeouts travel as whole milliseconds; and the two journeys composed "
+             "(c09_whole_call over whole_call, the very function the judge runs): for every caller context, handler additions and state, when "
+             "the call returns the caller sees under every name but _opid the handler's last value, else the correlation id under _cid, else "
+             "what it had, while the handler saw exactly the caller's headers. Tied to the code by replaying seeded calls through the real "
+             "FProtocol (WriteRequestHeader / ReadRequestHeader / WriteResponseHeader / ReadResponseHeader over a memory transport) AND whole "
+             "calls through a real FBaseProcessor over a bounded output buffer (normal replies and RESPONSE_TOO_LARGE error replies), "
+             "comparing all maps of all contexts after every step inside Coq. Partial: transports and generated code are exercised by C03, "
+             "not by this check.",
         note="Trusted: Coq kernel + vm_compute; harness as test equipment; header block < 2^31 bytes; FContext methods atomic (C17).",
         technique="Coq heap model + codec round-trip composition + vm_compute trace-validation judge",
         design="5/C09"),
